@@ -254,6 +254,10 @@ func amplify(family string, n int) (string, []byte) {
 		return "text/html", []byte(rep("a &amp; b  ", n))
 	case "html-comments":
 		return "text/html", []byte(rep("<!-- c -->", n))
+	case "html-endtags":
+		return "text/html", []byte("a" + rep(" </b>", n))
+	case "html-inline-ws":
+		return "text/html", []byte(rep("<i>x</i> ", n))
 	case "css-decls":
 		return "text/css", []byte("a{" + rep("margin:0px 0px 0px 0px;", n) + "}")
 	case "css-rules":
@@ -289,7 +293,7 @@ func amplify(family string, n int) (string, []byte) {
 }
 
 var c10Families = []string{"js-parens", "js-arrays", "js-blocks", "js-cond", "js-not", "js-add", "js-strcat", "js-vars", "js-manyvars", "js-funcs", "js-template", "js-ifelse",
-	"html-nest", "html-divs", "html-attrs", "html-ps", "html-text", "html-comments", "css-decls", "css-rules", "css-calc", "css-values", "css-selectors", "css-blocks",
+	"html-nest", "html-divs", "html-attrs", "html-ps", "html-text", "html-comments", "html-endtags", "html-inline-ws", "css-decls", "css-rules", "css-calc", "css-values", "css-selectors", "css-blocks",
 	"svg-path", "svg-nest", "svg-arcs", "xml-nest", "xml-text", "xml-attrs", "json-nest", "json-numbers", "json-objects"}
 
 func c10BuildCases(run *core.Run) []C10Case {
@@ -536,6 +540,9 @@ func C10(run *core.Run) {
 			if rs[0].state == "timeout" && c.Family == "html-text" && run.KnownSignature("html-text-entities-quadratic") {
 				continue
 			}
+			if rs[0].state == "timeout" && c.Family == "html-endtags" && run.KnownSignature("html-trailing-space-lookahead-quadratic") {
+				continue
+			}
 			if rs[0].state == "timeout" {
 				report(c, "does not return: watchdog (25 s) expired twice, the second time alone in a fresh process")
 			} else if rs[0].state == "crash" {
@@ -581,6 +588,9 @@ func C10(run *core.Run) {
 				if f == "html-text" && run.KnownSignature("html-text-entities-quadratic") {
 					continue
 				}
+				if f == "html-endtags" && run.KnownSignature("html-trailing-space-lookahead-quadratic") {
+					continue
+				}
 				report(cs[2], fmt.Sprintf("super-linear cost: CPU time %v, %v, %v for sizes n, 4n, 16n (confirmed in a fresh process: %v, %v, %v)", t[0], t[1], t[2], rs[0].cpu, rs[1].cpu, rs[2].cpu))
 			} else {
 				run.Inconclusive()
@@ -592,6 +602,6 @@ func C10(run *core.Run) {
 	for _, i := range []int{0, len(cases) / 2, len(cases) - 40} {
 		run.Sample(map[string]interface{}{"kind": cases[i].Kind, "mediatype": cases[i].MT, "source": cases[i].Label, "input": core.Trunc(string(cases[i].Input), 200)})
 	}
-	run.Finish("hostile inputs for all six media types and the exported helpers: hand-written, test-table, fuzz-corpus and benchmark inputs, truncations of each at up to 64 positions, seeded mutations and splices, random and non-UTF-8 byte strings, 33 amplifier families (deep nesting and long repetition) at sizes n, 4n, 16n; option sets incl. extreme precisions (-1, 0, 1, 17, 1e9, MinInt) and template delimiters; entry points Minify, Bytes, String, Reader, Writer, Number, Decimal, Mediatype, DataURI; a case is (entry point, media type, options, input); non-trivial = the call returned under all monitors",
+	run.Finish("hostile inputs for all six media types and the exported helpers: hand-written, test-table, fuzz-corpus and benchmark inputs, truncations of each at up to 64 positions, seeded mutations and splices, random and non-UTF-8 byte strings, 35 amplifier families (deep nesting and long repetition) at sizes n, 4n, 16n; option sets incl. extreme precisions (-1, 0, 1, 17, 1e9, MinInt) and template delimiters; entry points Minify, Bytes, String, Reader, Writer, Number, Decimal, Mediatype, DataURI; a case is (entry point, media type, options, input); non-trivial = the call returned under all monitors",
 		[]string{"every case runs in a child process that logs the case before calling; a dead child attributes the fatal error to the logged case", "CPU time is per-thread (getrusage), minimum of 3 repetitions; a super-linear verdict needs ratio > 10 per 4x step and confirmation in a fresh process", "a watchdog expiry is inconclusive unless it repeats alone in a fresh process"}, 1000, false)
 }
